@@ -1,5 +1,79 @@
-//! Harness binary for property C18 (line protocol; see /verif/vlib/BUILDER_GUIDE.md).
+//! C18 implementation-side executor (protocol `stdops`, see /verif/vlib/c18.py).
+//!
+//! The code under test is `std/map.sam`, `std/list.sam` (embedded into the compiler at build time by
+//! `samlang_parser::builtin_std_raw_sources`, crates/samlang-parser/src/lib.rs:39) and
+//! `std/set.sam` (not embedded by the compiler; included here at build time, so that an edit of the
+//! file is picked up by the rebuild exactly like the embedded ones).  Each input line is a JSON
+//! object {"main": "<text of module Main>", "ts": bool, "timeout_ms": n}: the module is compiled
+//! in-process with the real `samlang_compiler::compile_sources` together with the std modules and
+//! the emitted WebAssembly / TypeScript are executed under Node >= 22.
+//!
+//! stdout: first a header line {"header": {...}} describing the std sources that were linked in,
+//! then one JSON answer per input line (same shape as the shared `exec` oracle).
+use rayon::prelude::*;
+use samverif_harness::exec::*;
+use std::io::BufRead;
+use std::time::Duration;
+
+const SET_SAM: &str = include_str!("/repo/std/set.sam");
+
 fn main() {
-  eprintln!("c18: not implemented yet");
-  std::process::exit(2);
+  std::panic::set_hook(Box::new(|_| {}));
+  // header: are the embedded std sources the ones on disk right now?
+  let mut embedded: Vec<(String, bool, usize)> = Vec::new();
+  {
+    let heap = &mut samlang_heap::Heap::new();
+    for (m, text) in samlang_parser::builtin_std_raw_sources(heap) {
+      let name = m.pretty_print(heap);
+      let file = format!("/repo/{}.sam", name.replace('.', "/"));
+      let same = std::fs::read_to_string(&file).map(|t| t == text).unwrap_or(false);
+      embedded.push((name, same, text.len()));
+    }
+  }
+  embedded.sort();
+  let set_same = std::fs::read_to_string("/repo/std/set.sam").map(|t| t == SET_SAM).unwrap_or(false);
+  println!(
+    "{}",
+    serde_json::json!({"header": {
+      "embedded": embedded.iter().map(|(n, s, l)| serde_json::json!({"module": n, "same_as_disk": s, "bytes": l})).collect::<Vec<_>>(),
+      "std_set_embedded_by_compiler": embedded.iter().any(|(n, _, _)| n == "std.set"),
+      "std_set_same_as_disk": set_same,
+    }})
+  );
+  let lines: Vec<String> =
+    std::io::stdin().lock().lines().map(|l| l.unwrap()).filter(|l| !l.trim().is_empty()).collect();
+  let answers: Vec<String> = lines
+    .par_iter()
+    .enumerate()
+    .map(|(i, line)| {
+      let v: serde_json::Value = match serde_json::from_str(line) {
+        Ok(v) => v,
+        Err(e) => return serde_json::json!({"compile": "bad-input", "msg": e.to_string()}).to_string(),
+      };
+      let main = v["main"].as_str().unwrap_or("").to_string();
+      let mut sources: Vec<(String, String)> = vec![("Main".to_string(), main)];
+      if !embedded.iter().any(|(n, _, _)| n == "std.set") {
+        sources.push(("std.set".to_string(), SET_SAM.to_string()));
+      }
+      let run_ts = v["ts"].as_bool().unwrap_or(true);
+      let timeout = Duration::from_millis(v["timeout_ms"].as_u64().unwrap_or(20000));
+      match compile_program(&sources, "Main", true) {
+        CompileOutcome::Errors(e) => serde_json::json!({"compile": "errors", "msg": e}).to_string(),
+        CompileOutcome::Panic(e) => serde_json::json!({"compile": "panic", "msg": e}).to_string(),
+        CompileOutcome::Ok(c) => {
+          let runs = run_compiled(&c, &scratch_dir("c18", i), timeout, run_ts);
+          serde_json::json!({
+            "compile": "ok",
+            "wasm": {"lines": runs.wasm.lines, "end": runs.wasm.end},
+            "ts": {"lines": runs.ts.lines, "end": runs.ts.end},
+          })
+          .to_string()
+        }
+      }
+    })
+    .collect();
+  cleanup_scratch("c18");
+  for a in answers {
+    println!("{a}");
+  }
 }
